@@ -59,12 +59,55 @@ class ChoiceRng:
         idx = np.array(idx, dtype=int)
         return idx if isinstance(a, (int, np.integer)) else np.asarray(a)[idx]
 
-    def randint(self, low, high=None, size=None):
+    def randint(self, low, high=None, size=None, dtype=int, endpoint=False):
         if high is None:
             low, high = 0, low
-        return low + self.chooser.choose(high - low)
+        if endpoint:
+            high = high + 1
+        if size is None:
+            return low + self.chooser.choose(high - low)
+        shape = (size,) if isinstance(size, (int, np.integer)) else tuple(size)
+        if len(shape) == 1:
+            # a block of draws: an answer becomes a choice point when the library looks at it, so a block that is drawn
+            # ahead but consumed only partly costs what was consumed
+            return LazyDraws(self.chooser, low, high, shape[0])
+        flat = [low + self.chooser.choose(high - low) for _ in range(int(np.prod(shape)))]
+        return np.array(flat, dtype=int).reshape(shape)
 
     integers = randint
+
+
+class LazyDraws:
+    """A one-dimensional block of integer draws whose elements are decided on first access."""
+
+    def __init__(self, chooser, low, high, n):
+        self.chooser, self.low, self.high, self.n = chooser, low, high, n
+        self.vals = {}
+
+    def __len__(self):
+        return self.n
+
+    def __getitem__(self, i):
+        if isinstance(i, slice):
+            return [self[j] for j in range(*i.indices(self.n))]
+        i = int(i)
+        if i < 0:
+            i += self.n
+        if not 0 <= i < self.n:
+            raise IndexError(i)
+        if i not in self.vals:
+            self.vals[i] = self.low + self.chooser.choose(self.high - self.low)
+        return self.vals[i]
+
+    def __iter__(self):
+        for i in range(self.n):
+            yield self[i]
+
+    def tolist(self):
+        return self
+
+    def __array__(self, dtype=None, copy=None):
+        return np.array([self[i] for i in range(self.n)], dtype=dtype or int)
 
 
 def explore(body, cap=None):
